@@ -189,6 +189,10 @@ pub fn main(args: &[String]) {
                     if starts.len() != ids.len() { bad.push(format!("{} sequences started, {} reachable", starts.len(), ids.len())); }
                     if !nest_ok { bad.push("start/end events not properly nested".into()); }
                     if n_ref != expected_refs { bad.push(format!("{} entity-operand callbacks for {} entity operands", n_ref, expected_refs)); }
+                    // the block type of every multi-value sequence is an entity operand of that sequence: reported once per such sequence
+                    let n_mv = ids.values().filter(|id| matches!(lf.block(**id).ty, InstrSeqType::MultiValue(_))).count();
+                    let n_st = lg.iter().filter(|e| e.starts_with("ESeqType")).count();
+                    if n_st != n_mv { bad.push(format!("{} sequence-type callbacks for {} sequences with a function type", n_st, n_mv)); }
                     if !bad.is_empty() {
                         let class = if n_ref != expected_refs && bad.len() == 1 { format!("{}:entity-operands-not-visited-exactly-once", which) } else { format!("{}:traversal-broken", which) };
                         viol.push(Json::obj(vec![("class", Json::s(class)), ("props", Json::s("C16")), ("what", Json::s(format!("{} on function {}: {}", which, fidx, bad.join("; ")))),
